@@ -513,3 +513,21 @@ Proof.
   rewrite Nat2N.id. rewrite firstn_app, skipn_app, Nat.sub_diag, firstn_all, skipn_all. simpl.
   rewrite app_nil_r. reflexivity.
 Qed.
+
+(** Prefix freeness of the variable-length forms of common/serialization: a stream of encodings
+    splits in one way only (consequence of the round trips). *)
+Lemma ser_varuint_prefix_free (v1 v2 : N) (r1 r2 : bytes) :
+  v1 < two64 -> v2 < two64 ->
+  ser_write_varuint v1 ++ r1 = ser_write_varuint v2 ++ r2 -> v1 = v2 /\ r1 = r2.
+Proof.
+  intros H1 H2 E. pose proof (ser_varuint_roundtrip v1 r1 H1) as R1.
+  rewrite E, (ser_varuint_roundtrip v2 r2 H2) in R1. injection R1 as -> ->. split; reflexivity.
+Qed.
+
+Lemma ser_varbytes_prefix_free (d1 d2 r1 r2 : bytes) :
+  N.of_nat (length d1) < two64 -> N.of_nat (length d2) < two64 ->
+  ser_write_varbytes d1 ++ r1 = ser_write_varbytes d2 ++ r2 -> d1 = d2 /\ r1 = r2.
+Proof.
+  intros H1 H2 E. pose proof (ser_varbytes_roundtrip d1 r1 H1) as R1.
+  rewrite E, (ser_varbytes_roundtrip d2 r2 H2) in R1. injection R1 as -> ->. split; reflexivity.
+Qed.
